@@ -119,7 +119,7 @@ func (e *locExpr) toPoly() poly.Location {
 		return poly.Location{Start: e.i - 1, End: e.i}
 	case lkComp:
 		l := e.subs[0].toPoly()
-		l.Complement = true
+		l.Complement = !l.Complement // the complement of a complemented node is the node itself (as the parser builds it)
 		return l
 	}
 	l := poly.Location{Join: true}
@@ -225,7 +225,7 @@ func (p *insdcParser) location() (*locExpr, error) {
 }
 
 // locShapes: every tree shape with exactly `ops` operators and `leaves` leaves
-// (complement never directly inside complement; join has 2..6 operands). Leaves
+// (join has 2..6 operands). Leaves
 // are placeholders (kind lkSpan with i = 0) to be filled by the caller.
 func locShapes(ops, leaves int, noComp bool) []*locExpr {
 	var out []*locExpr
@@ -235,10 +235,11 @@ func locShapes(ops, leaves int, noComp bool) []*locExpr {
 		}
 		return out
 	}
-	if !noComp {
-		for _, t := range locShapes(ops-1, leaves, true) {
-			out = append(out, &locExpr{kind: lkComp, subs: []*locExpr{t}})
-		}
+	// complement may stand directly inside complement (complement(complement(x)) is x again); noComp is kept in the
+	// signature for the callers and no longer excludes anything
+	_ = noComp
+	for _, t := range locShapes(ops-1, leaves, false) {
+		out = append(out, &locExpr{kind: lkComp, subs: []*locExpr{t}})
 	}
 	for k := 2; k <= 6 && k <= leaves; k++ {
 		// distribute ops-1 operators and `leaves` leaves over k ordered operands
